@@ -133,6 +133,24 @@ def sameHeader (a c : Sample) : Bool := decide (a = c)
 def writeAt (rom : Bytes) (at_ : Nat) (src : Bytes) (n : Nat) : Bytes :=
   rom.take at_ ++ src.take n ++ rom.drop (at_ + n)
 
+/-- the placement decision of `add_sample`: (proposed start, aligned start, gaps after shrinking the reused gap) -/
+def placeFresh (b : Bank) (size : Nat) : Nat × Nat × List Gap :=
+  match findGap b size with
+  | some (gid, sp) =>
+    let g := b.gaps.getD gid ⟨0, 0⟩
+    (u32 g.start, sp, b.gaps.set gid { g with start := u32 (sp + size) })
+  | none => (u32 b.currentSize, fitSample b.bankSize size (u32 b.currentSize) (u32 b.maxSize), b.gaps)
+
+/-- the "create a new entry" branch of `add_sample` -/
+def addFresh (b : Bank) (h : Sample) (data : Bytes) : Except Err (Bank × Nat) :=
+  let p := placeFresh b h.size
+  if p.2.1 = NO_FIT then .error .noFit else
+  if data.length < h.size ∨ b.rom.length < p.2.1 + h.size then .error .oob else
+  .ok ({ b with currentSize := if p.2.1 ≥ b.currentSize then u32 (p.2.1 + h.size) else b.currentSize,
+                gaps := if p.2.1 > p.1 then p.2.2 ++ [⟨p.1, p.2.1⟩] else p.2.2,
+                rom := writeAt b.rom p.2.1 data h.size,
+                samples := b.samples ++ [{ h with position := p.2.1 }] }, b.samples.length)
+
 /-- `Wave_Bank::add_sample(Sample header, const vector<uint8_t>& sample)` -/
 def addSample (b : Bank) (h : Sample) (data : Bytes) : Except Err (Bank × Nat) :=
   if b.bankSize = 0 then .error .divZero else
@@ -142,20 +160,7 @@ def addSample (b : Bank) (h : Sample) (data : Bytes) : Except Err (Bank × Nat) 
     match b.samples.findIdx? (fun s => sameHeader s h') with
     | some r => .ok (b, r)
     | none => .ok ({ b with samples := b.samples ++ [h'] }, b.samples.length)
-  | none =>
-    let start0 := u32 b.currentSize
-    let (start, sp, gaps1) :=
-      match findGap b h.size with
-      | some (gid, sp) =>
-        let g := b.gaps.getD gid ⟨0, 0⟩
-        (u32 g.start, sp, b.gaps.set gid { g with start := u32 (sp + h.size) })
-      | none => (start0, fitSample b.bankSize h.size start0 (u32 b.maxSize), b.gaps)
-    if sp = NO_FIT then .error .noFit else
-    let gaps2 := if sp > start then gaps1 ++ [⟨start, sp⟩] else gaps1
-    let cur := if sp ≥ b.currentSize then u32 (sp + h.size) else b.currentSize
-    if data.length < h.size ∨ b.rom.length < sp + h.size then .error .oob else
-    .ok ({ b with currentSize := cur, gaps := gaps2, rom := writeAt b.rom sp data h.size,
-                  samples := b.samples ++ [{ h with position := sp }] }, b.samples.length)
+  | none => addFresh b h data
 
 /-- accessors -/
 def Bank.freeBytes (b : Bank) : Nat := u32 (b.maxSize + 4294967296 * 4294967296 - b.currentSize)
